@@ -15,7 +15,8 @@ from pathlib import Path
 
 VERIF = Path(__file__).resolve().parent.parent
 REPO = Path(os.environ.get('VERIF_REPO', '/repo'))
-COQ = VERIF / 'coq'
+WORK = Path(os.environ['VERIF_WORK']) if os.environ.get('VERIF_WORK') else VERIF   # isolated scratch mode for mutation trials
+COQ = WORK / 'coq'
 GEN = COQ / 'Gen'
 GENREF = COQ / 'GenRef'
 PROPS = COQ / 'Props'
@@ -42,6 +43,14 @@ def impl_env():
 	env['PYTHONDONTWRITEBYTECODE'] = '1'
 	env.pop('SYMBOL_SYMBOL_VERIF', None)
 	return env
+
+
+def prepare_work():
+	"""In scratch mode (VERIF_WORK set) mirrors /verif/coq (with its build output) into the scratch directory."""
+	if WORK == VERIF:
+		return
+	WORK.mkdir(parents=True, exist_ok=True)
+	subprocess.run(['rsync', '-a', '--delete', '--exclude', 'Cases', '--exclude', '.lock', f'{VERIF}/coq/', f'{COQ}/'], check=True)
 
 
 def scratch_dir(tag):
@@ -390,7 +399,7 @@ class Check:
 		known = load_known()
 		lines = []
 		status = 0
-		replay_dir = VERIF / 'replays' / self.pid
+		replay_dir = WORK / 'replays' / self.pid
 		replay_dir.mkdir(parents=True, exist_ok=True)
 		new_failures = []
 		for finding in self.failures:
@@ -455,7 +464,7 @@ class Check:
 			'wall_s': round(time.time() - self.start, 2),
 			'violations': violations
 		}
-		path = VERIF / 'evidence' / f'{self.pid}.json'
+		path = WORK / 'evidence' / f'{self.pid}.json'
 		path.parent.mkdir(exist_ok=True)
 		path.write_text(json.dumps(evidence, indent=1, default=str) + '\n', encoding='utf8')
 
